@@ -9,7 +9,8 @@ this file models how the record comes about, following each `With…` function o
 * setters overwrite (`WithWriteTime`, `WithUpdateMask`, `WithResetMask`, `WithExpectedValue`,
   `WithExpectedCheck`, `WithAllowMissing(b)`, `InterceptBefore`, `InterceptAfter`, callbacks,
   `WithReadMask`, `WithInclude`): a later one replaces an earlier one, and a nil mask / nil message
-  switches the setting off again;
+  switches the setting off again (`noExpectedCheck`, `noBefore`, `noAfter`, `noCreatedCallback`,
+  `noIDCallback` are the callback setters given nil);
 * flags are only ever set (`WithExpectAbsent`, `WithCreateIfAbsent`, `WithGenIDIfAbsent`,
   `WithAllFieldsWritable`);
 * `WithMoreUpdateMask(m)` adds the paths of `m`, as given, to the update mask in force AT THAT POINT of
@@ -45,6 +46,13 @@ inductive WOpt (M K : Type)
   | genIDIfAbsent
   | idCallback
   | empty
+  /-- `WithExpectedCheck(nil)`, `InterceptBefore(nil)`, `InterceptAfter(nil)`, `WithCreatedCallback(nil)`,
+  `WithIDCallback(nil)`: the setter given a nil function (every use site tests for nil) -/
+  | noExpectedCheck
+  | noBefore
+  | noAfter
+  | noCreatedCallback
+  | noIDCallback
 
 /-- `opt.apply(req)` for one write option. -/
 def applyW (ops : MsgOps M K) (cat : K → K → K) (wr : WriteReq M K) : WOpt M K → WriteReq M K
@@ -71,6 +79,11 @@ def applyW (ops : MsgOps M K) (cat : K → K → K) (wr : WriteReq M K) : WOpt M
   | .genIDIfAbsent => { wr with genEmptyID := true }
   | .idCallback => { wr with idCb := true }
   | .empty => wr
+  | .noExpectedCheck => { wr with expectedCheck := none }
+  | .noBefore => { wr with before := none }
+  | .noAfter => { wr with after := none }
+  | .noCreatedCallback => { wr with createdCb := false }
+  | .noIDCallback => { wr with idCb := false }
 
 /-- `ComputeWriteConfig(opts...)` -/
 def computeWriteConfig (ops : MsgOps M K) (cat : K → K → K) (opts : List (WOpt M K)) : WriteReq M K :=
